@@ -244,7 +244,7 @@ Crash ==
 \* graceful stop: the context is cancelled while the driver is idle in its loop; Run returns and its
 \* deferred WAL Close() FLUSHES whatever is still buffered (driver.go:Run, wal_store.go:Close)
 Stop ==
-  /\ mode = "listen" /\ queue = <<>> /\ sm.started /\ ncr < MaxCrashes
+  /\ mode = "listen" /\ queue = <<>> /\ ncr < MaxCrashes
   /\ \E f \in {FlushInto(pending, durable, pruned)} : durable' = f[1] /\ pruned' = f[2]
   /\ ghost' = GhostAdd(ghost, OwnOf([i \in DOMAIN pending |-> pending[i].a]))
   /\ pre' = [set |-> TRUE, s |-> sm]
